@@ -180,4 +180,16 @@ def recover (g : Geom) (img : Image) (policy : Policy) (order : List Bytes) (fai
     if ioFails failAt io (io + nOpen) then .error .io
     else .ok { log := l', effects := e0 ++ e1, ioCalls := io + nOpen }
 
+/-- What the reader sees of the directory since fix F6 (`RollingReader::next_block` ignores what lies
+    beyond the nominal size of a WAL file; the read that would deliver it is still made, so the
+    I/O calls are those of the clipped file). The identity on every image the log itself produces
+    (`C10V.clipImage_id`). -/
+def clipImage (g : Geom) (img : Image) : Image := img.map fun kv => (kv.1, kv.2.take g.fileBytes)
+
+/-- `open` on an arbitrary directory content: `recover` on the clipped view; the effects it
+    returns act on the directory as it is. -/
+def recoverC (g : Geom) (img : Image) (policy : Policy) (order : List Bytes) (failAt : Option Nat) :
+    Except OpenErr Recovered :=
+  recover g (clipImage g img) policy order failAt
+
 end MRL
